@@ -1,6 +1,7 @@
-(* C09, part 5: every step of a fault-free, crash-free history without
-   GetAndDelete preserves the write-through invariant; cache loss costs only
-   the bookkeeping of the latest request; GetAndDelete breaks it (D6). *)
+(* C09, part 5: every step of a fault-free, crash-free history preserves the
+   write-through invariant; cache loss costs only the bookkeeping of the latest
+   request; an acknowledged change (including a GetAndDelete that returned a
+   value) is in the store. *)
 From Sessions Require Import Model.Base Model.Sess Model.Hist Proofs.SessDefs
   Proofs.WriteThrough Proofs.WriteThrough2 Proofs.WriteThrough3 Proofs.WriteThrough4.
 From Coq Require Import Lia.
@@ -8,8 +9,7 @@ From Coq Require Import Lia.
 Definition nil_plan (pl : list bool) : bool := match pl with [] => true | _ => false end.
 
 Definition wf_req (r : reqstep) : bool :=
-  nil_plan (rq_plan r) && match rq_crash r with None => true | Some _ => false end &&
-  forallb nogetdel (rq_script r).
+  nil_plan (rq_plan r) && match rq_crash r with None => true | Some _ => false end.
 
 (* j: the codec flag of the configuration the history started with *)
 Definition wf_hop (j : bool) (h : hop) : bool :=
@@ -75,8 +75,7 @@ Proof.
   assert (HIs : Inv noex s) by (apply (Inv_ext (w_st w)); auto; apply (inv_plan _ _ HW)).
   destruct h as [r|d|tbl pl| | |u tbl pl|u tbl pl|c]; cbn [wf_hop] in Hwf.
   - (* request *)
-    unfold wf_req in Hwf. apply andb_prop in Hwf. destruct Hwf as [Hwf Hscr].
-    apply andb_prop in Hwf. destruct Hwf as [Hpl Hcr].
+    unfold wf_req in Hwf. apply andb_prop in Hwf. destruct Hwf as [Hpl Hcr].
     unfold step. fold s.
     destruct (rq_plan r); [|discriminate]. destruct (rq_crash r); [discriminate|].
     set (q := mkReq _ _ _ _).
@@ -87,7 +86,7 @@ Proof.
     destruct (fire_due_spec s2 HI2) as (HI3 & (Hc3 & _) & HU3).
     destruct res as [[o|]|e|e].
     + destruct (run_script (fire_due s2) o (had_cookie q) (rq_script r)) as [[s4 sr] cks'] eqn:Hr.
-      destruct (run_script_spec _ _ o _ s4 sr cks' HI3 (HU3 o (Held_Unsh _ _ (HH2 o eq_refl))) Hscr Hr) as (HI4 & Hc4).
+      destruct (run_script_spec _ _ o _ s4 sr cks' HI3 (HU3 o (Held_Unsh _ _ (HH2 o eq_refl))) Hr) as (HI4 & Hc4).
       cbn [fst w_st]. split; [apply (Inv_ext s4); auto|]. cbn. rewrite Hc4, Hc3, Hc2. exact Hj.
     + cbn [fst w_st]. split; [apply (Inv_ext (fire_due s2)); auto|]. cbn. rewrite Hc3, Hc2. exact Hj.
     + cbn [fst w_st]. split; [apply (Inv_ext (fire_due s2)); auto|]. cbn. rewrite Hc3, Hc2. exact Hj.
@@ -207,15 +206,23 @@ Qed.
 
 (* ------------------------------------------------- acknowledged changes *)
 
-Theorem ack_sop s o hc op s' cks :
+Theorem ack_sop s o hc op s' r cks :
+  WT s -> plan s = [] -> Held s o -> acked op r = true -> do_sop s o hc op = (s', r, cks) ->
+  WT s' /\ plan s' = [] /\ Held s' o /\ Stored s' o.
+Proof.
+  intros HW Hp HH Hack Hd. assert (HI : Inv noex s) by (apply WT_Inv; auto).
+  destruct (do_sop_spec s o hc op s' r cks HI (Held_Unsh _ _ HH) Hd) as (HI' & _ & _ & HH').
+  specialize (HH' HH Hack). pose proof (Held_Stored _ _ HI' HH') as HS.
+  apply WT_Inv in HI'. tauto.
+Qed.
+
+(* the earlier form: a changing call that returned without error *)
+Corollary ack_sop_ok s o hc op s' cks :
   WT s -> plan s = [] -> Held s o -> changing op = true -> do_sop s o hc op = (s', SOk, cks) ->
   WT s' /\ plan s' = [] /\ Held s' o /\ Stored s' o.
 Proof.
-  intros HW Hp HH Hch Hd. assert (HI : Inv noex s) by (apply WT_Inv; auto).
-  assert (Hng : nogetdel op = true) by (destruct op; try reflexivity; discriminate).
-  destruct (do_sop_spec s o hc op s' SOk cks HI (Held_Unsh _ _ HH) Hng Hd) as (HI' & _ & _ & HH').
-  specialize (HH' HH Hch eq_refl). pose proof (Held_Stored _ _ HI' HH') as HS.
-  apply WT_Inv in HI'. tauto.
+  intros HW Hp HH Hch Hd. apply (ack_sop s o hc op s' SOk cks HW Hp HH); [|exact Hd].
+  destruct op; try exact Hch; discriminate Hch.
 Qed.
 
 Theorem ack_start s q s' o cks :
@@ -279,8 +286,46 @@ Proof.
   destruct (r_data r); [congruence | discriminate].
 Qed.
 
+(* what the acknowledged GetAndDelete stored: the data without the key *)
+Lemma kv_get_del d k : NoDup (map fst d) -> kv_get (kv_del d k) k = None.
+Proof.
+  induction d as [|[k' v'] t IH]; intro Hnd; cbn [kv_del kv_get]; [reflexivity|].
+  cbn [map fst] in Hnd. inversion Hnd as [|? ? Hni Hnd']; subst.
+  destruct (k =? k')%N eqn:E; cbn [kv_get].
+  - apply N.eqb_eq in E. subst k'. clear IH Hnd Hnd'.
+    induction t as [|[k2 v2] t IH]; cbn [kv_get]; [reflexivity|].
+    destruct (k =? k2)%N eqn:E2.
+    + apply N.eqb_eq in E2. subst k2. exfalso. apply Hni. left. reflexivity.
+    + apply IH. intro H. apply Hni. right. exact H.
+  - rewrite E. apply IH. exact Hnd'.
+Qed.
 
-(* ------------------------------------ GetAndDelete never saves (defect D6) *)
+Theorem ack_getdel s o hc k v s' cks :
+  WT s -> plan s = [] -> Held s o -> do_sop s o hc (SGetDel k) = (s', SVal (Some v), cks) ->
+  exists ob r d0, hget s' o = Some ob /\ lookup (store s') (o_id ob) = Some r /\
+                  data_of s o = Some d0 /\ kv_get d0 k = Some v /\
+                  r_data r = Some (kv_del d0 k) /\ r_data (o_rec ob) = Some (kv_del d0 k) /\
+                  (NoDup (map fst d0) -> kv_get (kv_del d0 k) k = None).
+Proof.
+  intros HW Hp HH Hd. assert (HI : Inv noex s) by (apply WT_Inv; auto).
+  destruct (Held_Unsh _ _ HH) as (ob & Hg & Hu). cbn [do_sop] in Hd. unfold data_of in Hd |- *.
+  rewrite Hg in Hd |- *. destruct (r_data (o_rec ob)) as [d|]; [|discriminate].
+  destruct (kv_get d k) as [v0|] eqn:Ek; [|discriminate].
+  destruct (modify_save s o ob (fun r0 => set_data r0 (Some (kv_del d k))) HI Hg Hu)
+    as (s1 & Hs & HI1 & HH1 & _ & _ & Hg1).
+  rewrite Hs in Hd. injection Hd as <- <- _.
+  destruct (Held_Stored _ _ HI1 HH1) as (ob1 & r & Hg1' & Hr & Hdur).
+  rewrite Hg1 in Hg1'. injection Hg1' as <-. cbn [o_id o_rec] in *.
+  eexists. exists r, d. split; [exact Hg1|]. cbn [o_id o_rec r_data set_data].
+  split; [exact Hr|]. split; [reflexivity|]. split; [exact Ek|].
+  split; [|split; [reflexivity | apply kv_get_del]].
+  pose proof (inv_norm _ _ HI1 _ _ Hr) as Hn. apply (f_equal r_data) in Hn. cbn in Hn.
+  unfold durable in Hdur. cbn in Hdur. injection Hdur as _ _ _ Hda.
+  destruct (r_data r); [congruence | discriminate].
+Qed.
+
+
+(* --------------------------- GetAndDelete writes through (defect D6 repaired) *)
 
 Definition cfgA : cfg :=
   mkCfg 3600000000000 1800000000000 60000000000 600000000000 10 0 true false.
@@ -306,35 +351,26 @@ Proof.
   - split; assumption.
 Qed.
 
-(* The second step is fault-free and crash-free, and breaks write-through. *)
-Theorem getdel_breaks_wt : WT (stateA 0) /\ ~ WT (stateA 1).
-Proof.
-  split; [apply stateA0_WT|]. intros (_ & Hw & _).
-  assert (Hl : lookup (cache (stateA 1)) (KGen 0) = Some 0) by (vm_compute; reflexivity).
-  assert (Hg : hget (stateA 1) 0 =
-               Some (mkObj (KGen 0) (mkRec 0 0 (V4 10 0 0 1 80) 7 None None (Some [])))) by (vm_compute; reflexivity).
-  destruct (Hw _ _ _ Hl Hg) as (r & Hr & Hd).
-  vm_compute in Hr. injection Hr as <-. vm_compute in Hd. discriminate.
-Qed.
+Example histA_wf : wf_hist cfgA histA = true.
+Proof. vm_compute. reflexivity. Qed.
 
-(* The acknowledged GetAndDelete is not in the store. *)
-Theorem getdel_ack_refuted :
-  exists s o hc k v s',
-    WT s /\ plan s = [] /\ Held s o /\
-    do_sop s o hc (SGetDel k) = (s', SVal (Some v), []) /\ ~ Stored s' o.
+(* What a client sees: the value taken by GetAndDelete stays gone after cache loss. *)
+Theorem getdel_value_gone :
+  map ob_script (run cfgA histA) = [[SOk]; [SVal (Some 2%N)]; []; [SVal None]].
+Proof. vm_compute. reflexivity. Qed.
+
+(* the hypotheses of ack_getdel are satisfiable, and the stored record lost the key *)
+Example ack_getdel_nonvacuous :
+  exists s' cks, WT (stateA 0) /\ plan (stateA 0) = [] /\ Held (stateA 0) 0 /\
+    do_sop (stateA 0) 0 true (SGetDel 1) = (s', SVal (Some 2%N), cks) /\
+    option_map r_data (lookup (store s') (KGen 0)) = Some (Some []).
 Proof.
-  exists (stateA 0), 0, true, 1%N, 2%N.
-  eexists. split; [apply stateA0_WT|]. split; [apply stateA0_WT|]. split; [|split].
+  eexists. eexists.
+  split; [apply stateA0_WT|]. split; [apply stateA0_WT|]. split; [|split].
   - eexists. split; [vm_compute; reflexivity|]. left. vm_compute. reflexivity.
   - vm_compute. reflexivity.
-  - intros (ob & r & Hg & Hr & Hd). vm_compute in Hg. injection Hg as <-.
-    vm_compute in Hr. injection Hr as <-. vm_compute in Hd. discriminate.
+  - vm_compute. reflexivity.
 Qed.
-
-(* What a client sees: the value taken by GetAndDelete is back after cache loss. *)
-Theorem getdel_value_returns :
-  map ob_script (run cfgA histA) = [[SOk]; [SVal (Some 2%N)]; []; [SVal (Some 2%N)]].
-Proof. vm_compute. reflexivity. Qed.
 
 (* ------------------------------------------------------------ non-vacuity *)
 
@@ -343,12 +379,12 @@ Definition rqB (c : N) (scr : list sop) : reqstep :=
   mkReqStep c PJar true (V4 10 0 0 1 80) 7 scr [] [] None.
 
 (* cache size 1, JSON codec, rotation on every request, two clients, logins,
-   user-wide operations, waits past the grace period, purge, cache loss *)
+   GetAndDelete, user-wide operations, waits past the grace period, purge, cache loss *)
 Definition histB : list hop :=
   [HReq (rqB 1 [SSet 1 2; SLogIn (5, 0)%N true; SDel 1; SSet 3 4]);
    HReq (rqB 2 [SSet 7 8; SLogIn (5, 1)%N false; SRegen]);
    HWait 1500000000;
-   HReq (rqB 1 [SGet 3; SLogOut]);
+   HReq (rqB 1 [SGetDel 3; SLogOut; SGet 3]);
    HRefreshUser (5, 2)%N [] [];
    HWait 61000000000;
    HLogoutUser 5 [] [];
@@ -367,7 +403,7 @@ Example histB_nontrivial :
   /\ map ob_res (run cfgB histB)
      = [RSess; RSess; RVoid; RSess; RVoid; RVoid; RVoid; RVoid; RSess; RVoid; RVoid; RSess; RVoid]
   /\ map ob_script (run cfgB histB)
-     = [[SOk; SOk; SOk; SOk]; [SOk; SOk; SOk]; []; [SVal (Some 4%N); SOk]; []; []; []; [];
+     = [[SOk; SOk; SOk; SOk]; [SOk; SOk; SOk]; []; [SVal (Some 4%N); SOk; SVal None]; []; []; []; [];
         [SOk; SOk; SOk]; []; []; [SVal (Some 10%N); SOk]; []].
 Proof. vm_compute. repeat split; reflexivity. Qed.
 
@@ -384,9 +420,11 @@ Proof.
   - vm_compute. reflexivity.
 Qed.
 
-(* The property as worded (GetAndDelete among the changing calls) is false of
-   the faithful model. *)
-Definition mutating (op : sop) : bool := changing op || negb (nogetdel op).
+(* The property as worded (GetAndDelete among the changing calls): every
+   mutating call that returns neither an error nor a panic leaves the session
+   stored. *)
+Definition mutating (op : sop) : bool :=
+  changing op || match op with SGetDel _ => true | _ => false end.
 
 Definition ack_statement_full : Prop :=
   forall s o hc op s' r cks,
@@ -394,10 +432,36 @@ Definition ack_statement_full : Prop :=
     do_sop s o hc op = (s', r, cks) -> (forall e, r <> SErr e) -> (forall e, r <> SPanic e) ->
     Stored s' o.
 
-Theorem ack_full_refuted : ~ ack_statement_full.
+Theorem ack_full : ack_statement_full.
 Proof.
-  intro H. destruct getdel_ack_refuted as (s & o & hc & k & v & s' & HW & Hp & HH & Hd & Hn).
-  apply Hn. apply (H s o hc (SGetDel k) s' (SVal (Some v)) [] HW Hp HH eq_refl Hd); intros e; discriminate.
+  intros s o hc op s' r cks HW Hp HH Hm Hd Hne Hnp.
+  assert (HI : Inv noex s) by (apply WT_Inv; auto).
+  destruct (do_sop_spec s o hc op s' r cks HI (Held_Unsh _ _ HH) Hd) as (HI' & _ & _ & HH').
+  apply (Held_Stored _ _ HI'). destruct op as [k v|k|k|k|u ex| | |]; try discriminate Hm.
+  - apply HH'; [exact HH|]. cbn [do_sop] in Hd. destruct (data_of s o).
+    + destruct (save_direct _ o) as [s1 [[]|e|e]]; injection Hd as _ <- _;
+        [reflexivity | exfalso; eapply Hne; reflexivity | exfalso; eapply Hnp; reflexivity].
+    + injection Hd as _ <- _. exfalso. eapply Hnp. reflexivity.
+  - apply HH'; [exact HH|]. cbn [do_sop] in Hd.
+    destruct (save_direct _ o) as [s1 [[]|e|e]]; injection Hd as _ <- _;
+      [reflexivity | exfalso; eapply Hne; reflexivity | exfalso; eapply Hnp; reflexivity].
+  - (* GetAndDelete: a value was returned and saved, or nothing happened *)
+    destruct r as [|[v|]|e|e]; [| apply HH'; [exact HH | reflexivity] | | exfalso; eapply Hne; reflexivity | exfalso; eapply Hnp; reflexivity].
+    + exfalso. cbn [do_sop] in Hd. destruct (data_of s o) as [d|]; [destruct (kv_get d k)|]; try discriminate Hd.
+      destruct (save_direct _ o); discriminate Hd.
+    + cbn [do_sop] in Hd. destruct (data_of s o) as [d|]; [destruct (kv_get d k)|].
+      * destruct (save_direct _ o); discriminate Hd.
+      * injection Hd as <- _. exact HH.
+      * injection Hd as <- _. exact HH.
+  - apply HH'; [exact HH|]. cbn [do_sop] in Hd.
+    destruct (login s o u ex) as [[s1 [[]|e|e]] c1]; injection Hd as _ <- _;
+      [reflexivity | exfalso; eapply Hne; reflexivity | exfalso; eapply Hnp; reflexivity].
+  - apply HH'; [exact HH|]. cbn [do_sop] in Hd.
+    destruct (logout s o) as [s1 [[]|e|e]]; injection Hd as _ <- _;
+      [reflexivity | exfalso; eapply Hne; reflexivity | exfalso; eapply Hnp; reflexivity].
+  - apply HH'; [exact HH|]. cbn [do_sop] in Hd.
+    destruct (regenerate s o) as [[s1 [[]|e|e]] c1]; injection Hd as _ <- _;
+      [reflexivity | exfalso; eapply Hne; reflexivity | exfalso; eapply Hnp; reflexivity].
 Qed.
 
 (* WT follows from the shared invariants of SessDefs.v. *)
